@@ -128,6 +128,24 @@ fn packet_decision<F: Family>(frame: &[u8], want_err: &F::Error, what: &str, all
 pub fn check_filter(s: &str, packets: bool, all_fronts: bool) -> Result<bool, String> {
     let want = specpred::filter_valid(s);
     let (inv, _) = TopicFilter::is_invalid(s);
+    // the predicate takes a borrowed &str: the same text borrowed from the middle of a larger buffer, at every offset
+    // modulo the word size, gets the same verdict (and the same separator index)
+    if s.len() >= 8 || all_fronts {
+        let full = TopicFilter::is_invalid(s);
+        let mut buf = String::with_capacity(s.len() + 16);
+        for off in 1..=8usize {
+            buf.clear();
+            for _ in 0..off {
+                buf.push('x');
+            }
+            buf.push_str(s);
+            buf.push('y');
+            let got = TopicFilter::is_invalid(&buf[off..off + s.len()]);
+            if got != full {
+                return Err(format!("TopicFilter::is_invalid on {:?} borrowed at offset {} of a larger buffer gives {:?}; on a string of its own {:?}", s.chars().take(60).collect::<String>(), off, got, full));
+            }
+        }
+    }
     if inv == want {
         return Err(format!("TopicFilter::is_invalid({:?}) = {} but MQTT 4.7/4.8 says the filter is {}", s, inv, if want { "valid" } else { "invalid" }));
     }
@@ -826,6 +844,22 @@ pub fn check_name(s: &str, packets: bool, all_fronts: bool) -> Result<bool, Stri
     // path): what is known about one kind of value says nothing about the other
     let _live_filter = TopicFilter::try_from(s.to_string()).ok();
     let want = specpred::name_valid(s);
+    if s.len() >= 8 || all_fronts {
+        let full = TopicName::is_invalid(s);
+        let mut buf = String::with_capacity(s.len() + 16);
+        for off in 1..=8usize {
+            buf.clear();
+            for _ in 0..off {
+                buf.push('x');
+            }
+            buf.push_str(s);
+            buf.push('y');
+            let got = TopicName::is_invalid(&buf[off..off + s.len()]);
+            if got != full {
+                return Err(format!("TopicName::is_invalid on {:?} borrowed at offset {} of a larger buffer gives {}; on a string of its own {}", s.chars().take(60).collect::<String>(), off, got, full));
+            }
+        }
+    }
     if TopicName::is_invalid(s) == want {
         return Err(format!("TopicName::is_invalid({:?}..) = {} but the MQTT rule says the name ({} bytes) is {}", s.chars().take(40).collect::<String>(), want, s.len(), if want { "valid" } else { "invalid" }));
     }
